@@ -25,6 +25,7 @@ type Config struct {
 	BigNums      bool // integers beyond 2^53 (and above MaxInt64) at Any positions
 	Floats       bool // floats
 	BigMaps      bool // bias towards maps with more than 8 entries
+	BigMapOneIn  int  // with BigMaps: one map in N is big (default 6)
 	EmptyKey     bool // "" as an unknown key
 	MergeKeyStr  bool // the string "<<" as a (quoted) mapping key
 	EmptyMatrix  bool // matrix: [] / setup: [] / matrix: {} forms
@@ -353,6 +354,9 @@ func (g *G) newKey(role string, used map[string]bool, excl map[string]bool) (ent
 		if e.key == "<<" && !g.C.MergeKeyStr {
 			continue
 		}
+		if len(e.key) > MaxKeyLen {
+			continue
+		}
 		if used[e.key] || excl[e.key] {
 			continue
 		}
@@ -363,7 +367,11 @@ func (g *G) newKey(role string, used map[string]bool, excl map[string]bool) (ent
 }
 
 func (g *G) mapSize(label string, small int) int {
-	if g.C.BigMaps && g.coin(label+"big", 6) {
+	oneIn := g.C.BigMapOneIn
+	if oneIn < 2 {
+		oneIn = 6
+	}
+	if g.C.BigMaps && g.coin(label+"big", oneIn) {
 		g.feat("bigmap")
 		return g.intn(label+"n", 9, 24)
 	}
@@ -424,6 +432,12 @@ func (g *G) extras(used, excl map[string]bool, cnt int) []ent {
 
 // ---------------------------------------------------------------------------
 // the pipeline grammar
+
+// MaxKeyLen bounds generated mapping keys: YAML limits implicit ("simple") keys
+// to 1024 characters, and JSON input is read as YAML, so a longer key cannot be
+// carried by the JSON leg at all - a limit of the YAML format, outside every
+// property's domain.
+const MaxKeyLen = 300
 
 // KindKeys are the ten kind-determining keys.
 var KindKeys = []string{"command", "commands", "plugins", "wait", "waiter", "block", "input", "manual", "trigger", "group"}
@@ -677,7 +691,7 @@ func (g *G) envMap(role string, cnt int) *yaml.Node {
 		default:
 			e.key = g.s("envkey")
 		}
-		if (e.key == "" && !g.C.EmptyKey) || (e.key == "<<" && !g.C.MergeKeyStr) || used[e.key] {
+		if (e.key == "" && !g.C.EmptyKey) || (e.key == "<<" && !g.C.MergeKeyStr) || used[e.key] || len(e.key) > MaxKeyLen {
 			continue
 		}
 		used[e.key] = true
@@ -839,7 +853,7 @@ func (g *G) dimName(used map[string]bool) (string, bool) {
 		default:
 			d = g.s("dim")
 		}
-		if d == "" || d == "<<" || used[d] {
+		if d == "" || d == "<<" || used[d] || len(d) > MaxKeyLen {
 			continue
 		}
 		used[d] = true
